@@ -201,6 +201,8 @@ def _return_exit(world, ex, con, fsrc, frame, value, retnode, rets, pre_params, 
     sf.env["result"] = value
     ex.cur_spec_frame = sf
     for label, clause in con.returns_for(ex.case_name).items():
+        if label in con.definitional:
+            continue          # a ghost marker ("this value was produced by this function"): holds by definition
         ex.oblige("post", label, ex.spec_bool(clause, sf, {}), exit_text=text, clause=clause)
     _frame_obligation(ex, con, text)
 
